@@ -132,6 +132,7 @@ def check(model: Model, run: Run) -> None:
     # ---- (f) one implementation of the integer content octets; readers and sub-readers cannot be refused ----
     hand_built_integer_content(model, run, mr)
     integer_contents_are_signed(model, run)
+    codec_parameters_are_used(model, run)
     reader_construction_total(model, run, mr)
     from ..readerrules import lemma_peek_is_pure
     lemma_peek_is_pure(model, run)
@@ -549,6 +550,67 @@ def _compatible(ft, pt) -> bool:
     def is_intlike(t_):
         return t_ in ints or (t_[0] == "inst" and t_[1].endswith("TypeTagNumber"))
     return is_intlike(ft) and is_intlike(pt)
+
+
+def codec_parameters_are_used(model: Model, run: Run) -> None:
+    """S12: every parameter of the reader / writer API methods (read_*, write_*, push_*) and of the module helpers they hand over to
+    is read somewhere in the body - a `tag=` that is accepted and then dropped makes the call encode / expect the default tag.
+    S13: every reader helper that takes a peeked header lets the header's own tag stand in when no explicit tag is given
+    (`header.tag` is read where the expected tag is chosen, in the helper or in the helper it delegates that choice to): the
+    read-by-header idiom `h = r.peek_header(); r.read_x(header=h)` depends on it for every non-universal tag."""
+    from ..anchors import asn1 as asn1_anchors, reachable
+    an = asn1_anchors(model)
+    rd, wr = model.cls(f"{ASN1}.ASN1Reader"), model.cls(f"{ASN1}.ASN1Writer")
+    api = [m for c in (rd, wr) for n_, m in c.methods.items() if n_.startswith(("read_", "write_", "push_")) and not isinstance(m.node, ast.Lambda)]
+    helpers = {h.qualname: h for h in list(an.reader_helper.values()) + list(an.writer_helper.values())}
+    n = 0
+    for fi in api + list(helpers.values()):
+        a = fi.node.args
+        ps = [x.arg for x in a.posonlyargs + a.args + a.kwonlyargs if x.arg not in ("self", "cls")]
+        loads = {x.id for x in ast.walk(fi.node) if isinstance(x, ast.Name) and isinstance(x.ctx, ast.Load)}
+        for p_ in ps:
+            n += 1
+            ok = p_ in loads
+            run.ob("S12-codec-parameters-are-used", ok, {"function": fi.qualname.split("sansldap.")[-1], "parameter": p_})
+            if not ok:
+                run.fail(Finding("S12-codec-parameters-are-used", fi.qualname, f"{fi.name}|{p_}", f"{fi.qualname.split('sansldap.')[-1]} accepts `{p_}` and never reads it: what the caller asked for "
+                                 "is silently replaced by the default", model.loc(fi.module, fi.node)))
+    run.floor("codec API parameters", n, 40)
+    # S13
+    memo = {}
+
+    def uses_header_tag(fi, depth=0) -> bool:
+        if fi.qualname in memo:
+            return memo[fi.qualname]
+        memo[fi.qualname] = False
+        hp = [x.arg for x in fi.node.args.posonlyargs + fi.node.args.args + fi.node.args.kwonlyargs if x.annotation is not None and norm(x.annotation).endswith("ASN1Header]")
+              or x.annotation is not None and norm(x.annotation).endswith("ASN1Header")]
+        ok = False
+        for h_ in hp:
+            if any(isinstance(x, ast.Attribute) and x.attr == "tag" and isinstance(x.value, ast.Name) and x.value.id == h_ for x in ast.walk(fi.node)):
+                ok = True
+            # the choice is delegated: header handed to a module helper (not the validating helper) that reads header.tag
+            for c in ast.walk(fi.node):
+                if isinstance(c, ast.Call) and isinstance(c.func, ast.Name) and depth < 3 and any(isinstance(a_, ast.Name) and a_.id == h_ for a_ in list(c.args) + [k.value for k in c.keywords]):
+                    q = model.resolve_name(fi.module, c.func.id)
+                    g = model.functions.get(q) if q else None
+                    if g is not None and g is not an.validate and not isinstance(g.node, ast.Lambda) and uses_header_tag(g, depth + 1):
+                        ok = True
+        memo[fi.qualname] = ok
+        return ok
+    seen = set()
+    for name, h in sorted(an.reader_helper.items()):
+        if h.qualname in seen:
+            continue
+        seen.add(h.qualname)
+        takes_header = any(x.annotation is not None and "ASN1Header" in norm(x.annotation) for x in h.node.args.posonlyargs + h.node.args.args + h.node.args.kwonlyargs)
+        if not takes_header:
+            continue
+        ok = uses_header_tag(h)
+        run.ob("S13-header-tag-stands-in-for-the-default", ok, {"helper": h.name})
+        if not ok:
+            run.fail(Finding("S13-header-tag-stands-in-for-the-default", h.qualname, f"{h.name}|header.tag", f"{h.name} takes a peeked header but never lets `header.tag` be the expected tag: reading a "
+                             "non-universally tagged value by its header alone is rejected although its sibling readers accept it", model.loc(h.module, h.node)))
 
 
 def integer_contents_are_signed(model: Model, run: Run, rule: str = "S11-integer-contents-read-as-twos-complement") -> None:
